@@ -152,11 +152,43 @@ def lift_int(ctx, f, w, *strs):
 
 
 def str_eq(ctx, a, b):
+    if hasattr(a, 'bv') or hasattr(b, 'bv') or hasattr(a, 'fp') or hasattr(b, 'fp'):
+        return numstr_eq(ctx, a, b)
     if a.term is not None or b.term is not None:
         return a.z3term() == b.z3term()
     if a.tab is not None and b.tab is not None and not a.var.eq(b.var):
         return Or([And(a.var == i, b.var == j) for i in a.tab for j in b.tab if a.tab[i] == b.tab[j]])
     return lift_bool(ctx, lambda x, y: x == y, a, b)
+
+
+def numstr_eq(ctx, a, b):
+    """equality involving the decimal rendering of a symbolic integer (injective per signedness/width)"""
+    if hasattr(a, 'fp') or hasattr(b, 'fp'):
+        if hasattr(a, 'fp') and hasattr(b, 'fp') and (a.pre, a.suf) == (b.pre, b.suf):
+            # Display of f64 is injective on non-NaN values except that it is one text per value
+            return z3.fpEQ(a.fp, b.fp) if True else None
+        raise Unmodelled('equality of float rendering with other text')
+    if hasattr(a, 'bv') and hasattr(b, 'bv'):
+        if (a.pre, a.suf, a.signed) == (b.pre, b.suf, b.signed) and a.bv.size() == b.bv.size():
+            return a.bv == b.bv
+        raise Unmodelled('equality of two differently decorated numerals')
+    n, o = (a, b) if hasattr(a, 'bv') else (b, a)
+    if o.s is not None:
+        t = o.s
+        if not (t.startswith(n.pre) and t.endswith(n.suf) and len(t) >= len(n.pre) + len(n.suf)):
+            return BoolVal(False)
+        mid = t[len(n.pre):len(t) - len(n.suf)] if n.suf else t[len(n.pre):]
+        import re as _re
+        if not _re.fullmatch(r'-?(0|[1-9][0-9]*)', mid) or (mid.startswith('-') and not n.signed) or mid == '-0':
+            return BoolVal(False)
+        v = int(mid); w = n.bv.size()
+        lo, hi = (-(1 << (w - 1)), (1 << (w - 1)) - 1) if n.signed else (0, (1 << w) - 1)
+        if v < lo or v > hi:
+            return BoolVal(False)
+        return n.bv == BitVecVal(v, w)
+    if o.tab is not None:
+        return Or([And(o.var == i, numstr_eq(ctx, n, Str(t))) for i, t in o.tab.items()])
+    raise Unmodelled('equality of numeral rendering with symbolic text')
 
 
 # --- construction / conversion
@@ -775,6 +807,7 @@ def deep_clone(ctx, v):
         for k, c in v.d.items():
             m.d[k] = Cell(deep_clone(ctx, c.v))
         m.keys = dict(v.keys)
+        m.sym = [(k, Cell(deep_clone(ctx, c.v))) for k, c in v.sym]
         return m
     if isinstance(v, BoxV):
         return BoxV(deep_clone(ctx, v.cell.v))
@@ -788,6 +821,13 @@ def deep_clone(ctx, v):
 @model(r'^<.* as Clone>::clone$', 'generic_clone')
 def m_clone(ctx, args, callee):
     return deep_clone(ctx, ctx.deref(args[0]))
+
+
+@model(r'^<.* as PartialEq(<.*>)?>::ne$', 'ne_via_eq')
+def m_ne_via_eq(ctx, args, callee):
+    """PartialEq::ne default method: !eq"""
+    r = ctx.call(callee[:-2] + 'eq', args)
+    return Not(r)
 
 
 # =========================================================================== Box / Rc
@@ -1660,24 +1700,52 @@ def key_of(ctx, k):
 
 
 class Map:
-    """HashMap / BTreeMap / HashSet / BTreeSet on concrete keys. Iteration order: BTree* ascending by key;
-    Hash* in an unspecified order — modelled as insertion order and flagged `order_unspecified`"""
-    __slots__ = ('d', 'keys', 'kind')
+    """HashMap / BTreeMap / HashSet / BTreeSet. Entries are (key value, cell); concrete keys are indexed in a dict,
+    symbolic string keys are compared entry by entry (forking on equality). Iteration order: BTree* ascending by
+    (concrete) key; Hash* unspecified — modelled as insertion order."""
+    __slots__ = ('d', 'keys', 'kind', 'sym')
 
     def __init__(self, kind='HashMap'):
-        self.d = {}; self.keys = {}; self.kind = kind
+        self.d = {}; self.keys = {}; self.kind = kind; self.sym = []
+
+    def _lookup(self, ctx, k):
+        """-> cell or None; forks on symbolic key equality"""
+        kv = ctx.deref(k)
+        try:
+            kk = key_of(ctx, kv)
+        except Unmodelled:
+            kk = None
+        if kk is not None:
+            c = self.d.get(kk)
+            if c is not None:
+                return c
+            for sk, cell in self.sym:
+                if ctx.decide(generic_eq(ctx, sk, kv)):
+                    return cell
+            return None
+        for kk2, cell in list(self.d.items()):
+            if ctx.decide(generic_eq(ctx, self.keys[kk2], kv)):
+                return cell
+        for sk, cell in self.sym:
+            if ctx.decide(generic_eq(ctx, sk, kv)):
+                return cell
+        return None
 
     def insert(self, ctx, k, v):
-        kk = key_of(ctx, k)
-        old = self.d.get(kk)
-        if old is None:
+        old = self._lookup(ctx, k)
+        if old is not None:
+            o = old.v; old.v = v
+            return some(o)
+        kv = ctx.deref(k)
+        try:
+            kk = key_of(ctx, kv)
             self.d[kk] = Cell(v); self.keys[kk] = k
-            return none()
-        o = old.v; old.v = v
-        return some(o)
+        except Unmodelled:
+            self.sym.append((kv, Cell(v)))
+        return none()
 
     def get(self, ctx, k):
-        return self.d.get(key_of(ctx, k))
+        return self._lookup(ctx, k)
 
     def ordered_keys(self):
         ks = list(self.d.keys())
@@ -1685,21 +1753,27 @@ class Map:
             ks.sort()
         return ks
 
+    def _sym_guard(self):
+        if self.sym:
+            raise Unmodelled('iteration over a map with symbolic keys')
+
     def iter_refs(self, ctx):
+        self._sym_guard()
         if self.kind.endswith('Set'):
             return ListIter([Ref(Cell(self.keys[k])) for k in self.ordered_keys()])
         return ListIter([Agg([Ref(Cell(self.keys[k])), Ref(self.d[k])]) for k in self.ordered_keys()])
 
     def into_iter(self, ctx):
+        self._sym_guard()
         if self.kind.endswith('Set'):
             return ListIter([self.keys[k] for k in self.ordered_keys()])
         return ListIter([Agg([self.keys[k], self.d[k].v]) for k in self.ordered_keys()])
 
     def length(self, ctx):
-        return BitVecVal(len(self.d), 64)
+        return BitVecVal(len(self.d) + len(self.sym), 64)
 
     def __repr__(self):
-        return '%s(%r)' % (self.kind, {k: c.v for k, c in self.d.items()})
+        return '%s(%r%s)' % (self.kind, {k: c.v for k, c in self.d.items()}, (' +%d symbolic' % len(self.sym)) if self.sym else '')
 
 
 def as_map(ctx, v):
